@@ -51,6 +51,7 @@ type scenario struct {
 	//                                           fsync that reports EIO; the tool may give up, it must not acknowledge what the call was for
 	Probe   bool   `json:"foreign_on_probe"`  // whenever the tool looks whether a name in the output dir is free (stat / access = ENOENT) and is
 	//                                           held there by strace, somebody else creates exactly that name before it goes on
+	TinyKB  int    `json:"tiny_fs_kb"`        // >0: the output dir is a file system of that many KB (tmpfs): it fills up, write(2) fails with ENOSPC
 	Seed    int64  `json:"seed"`
 }
 
@@ -165,6 +166,14 @@ func runScenario(base string, sc scenario, bin string) (res scenResult) {
 	}
 	os.MkdirAll(out, 0755)
 	os.MkdirAll(work, 0755)
+	if sc.TinyKB > 0 {
+		if err := exec.Command("mount", "-t", "tmpfs", "-o", fmt.Sprintf("size=%dk", sc.TinyKB), "tmpfs", out).Run(); err != nil {
+			// not allowed here: the scenario runs on the ordinary file system (nothing fills up)
+			sc.TinyKB = 0
+		} else {
+			defer exec.Command("umount", "-l", out).Run()
+		}
+	}
 	n, err := startNSQD(filepath.Join(base, "nsqd"), 2*time.Second)
 	if err != nil {
 		return fail("nsqd: %v", err)
@@ -185,6 +194,9 @@ func runScenario(base string, sc scenario, bin string) (res scenResult) {
 		k := rng.Intn(120)
 		if rng.Intn(6) == 0 {
 			k = 0
+		}
+		if sc.TinyKB > 0 {
+			k = 6000 + rng.Intn(3000) // a dozen of these fill the file system
 		}
 		for j := 0; j < k; j++ {
 			b = append(b, padChars[rng.Intn(len(padChars))])
@@ -279,6 +291,11 @@ func runScenario(base string, sc scenario, bin string) (res scenResult) {
 		"-sync-interval", fmt.Sprintf("%dms", o.SyncMs), "-max-in-flight", strconv.Itoa(o.MaxInFlight)}
 	if o.WorkDir {
 		toolArgs = append(toolArgs, "-work-dir", work)
+	}
+	if sc.TinyKB > 0 {
+		// whatever the tool does about a message it could not write (give up, try again), it goes about it quickly
+		toolArgs = append(toolArgs, "-consumer-opt", "default_requeue_delay,40ms", "-consumer-opt", "max_requeue_delay,100ms",
+			"-consumer-opt", "max_backoff_duration,40ms", "-consumer-opt", "backoff_multiplier,10ms")
 	}
 	if o.Gzip {
 		toolArgs = append(toolArgs, "-gzip")
